@@ -174,6 +174,40 @@ Section Cipher.
   Definition Sm4OFB := helper Sm4OFB_core.
 End Cipher.
 
+(* ---------- sequences of calls on the package ------------------------------------------------------------------ *)
+(* The only package-level variable the helpers use is IV (record pkg); the helpers read it and never write it,
+   SetIV replaces it.  A history: before each helper call the caller may call SetIV.  Every value is the content
+   of the caller's slice at the time of the call (the caller may reuse and overwrite its buffers in between). *)
+Inductive helper_fn := FnEcb | FnCbc | FnCFB | FnOFB.
+Record mode_call := mkMCall {
+  m_setiv : option (list byte);      (* Some iv: SetIV(iv) is called first *)
+  m_fn : helper_fn; m_key : list byte; m_in : list byte; m_mode : bool }.
+
+Section History.
+  Variables E D : list byte -> list byte -> list byte.
+
+  Definition call_helper (p : pkg) (c : mode_call) : outcome (list byte) :=
+    match m_fn c with
+    | FnEcb => Sm4Ecb E D p (m_key c) (m_in c) (m_mode c)
+    | FnCbc => Sm4Cbc E D p (m_key c) (m_in c) (m_mode c)
+    | FnCFB => Sm4CFB E p (m_key c) (m_in c) (m_mode c)
+    | FnOFB => Sm4OFB E p (m_key c) (m_in c) (m_mode c)
+    end.
+
+  (* the package afterwards, SetIV's result (when it was called) and the helper's result *)
+  Definition mode_do (p : pkg) (c : mode_call) : pkg * (option (outcome unit) * outcome (list byte)) :=
+    match m_setiv c with
+    | Some iv => let '(r, p1) := SetIV iv p in (p1, (Some r, call_helper p1 c))
+    | None => (p, (None, call_helper p c))
+    end.
+
+  Fixpoint modes_run (p : pkg) (calls : list mode_call) : list (option (outcome unit) * outcome (list byte)) :=
+    match calls with
+    | [] => []
+    | c :: rest => let '(p1, r) := mode_do p c in r :: modes_run p1 rest
+    end.
+End History.
+
 (* ---------- caller memory: arrays, slice headers, make / copy / append ------------------------------------ *)
 Definition heap := list (list byte).
 (* s_arr: index of the backing array; the slice is arr[s_off : s_off+s_len], capacity s_cap from s_off *)
